@@ -146,7 +146,7 @@ items unchanged: if the propagation reaches no trait twice, the mutation
 succeeds exactly as on an unlinked list and both lists hold its result. -/
 theorem mutate_converges (E : Env α) (w : World α) (p q : Pair) (op : Op α) (o : Out α) (e : Event α)
     (hL : w.locked = []) (he : (⟨p, q⟩ : Edge) ∈ w.edges)
-    (hlp : E.isList p.2 = true) (hlq : E.isList q.2 = true) (hhook : p ∈ w.hooked)
+    (hlp : E.isList p = true) (hlq : E.isList q = true) (hhook : p ∈ w.hooked)
     (hstep : listStep (E.tl p) (w.list p) op = .ok o) (hev : o.event = some e)
     (heq : w.list q = w.list p)
     (hfix : valAll (E.iv q) 0 e.added = .ok e.added)
